@@ -176,3 +176,24 @@ Fixpoint strip_str_chunks (chunks : list (list N)) (st : state)
       '(pss, st'') <- strip_str_chunks rest st' ;;
       Some (ps :: pss, st'')
   end.
+
+(* ---- vocabulary of the function translator (tools/gen_fn_strip.py) --------- *)
+
+(* `struct Utf8Parser { utf8_parser: utf8parse::Parser }` is modelled by the decoder itself *)
+Definition u8p_inner (u : u8parser) : u8parser := u.
+Definition set_u8p_inner (_ v : u8parser) : u8parser := v.
+
+(* `struct VtUtf8Receiver<'a>(&'a mut bool)` is modelled by the bool it borrows *)
+Definition rcv_flag (r : bool) : bool := r.
+Definition set_rcv_flag (_ v : bool) : bool := v.
+
+(* StrippedStr<'s> { bytes, state } and StripStrIter<'s> { bytes, state: &mut State } *)
+Record str_iter_st : Set := mkStrIt { si_bytes : list N; si_state : state }.
+Definition set_si_bytes (i : str_iter_st) (v : list N) : str_iter_st := mkStrIt v (si_state i).
+Definition set_si_state (i : str_iter_st) (v : state) : str_iter_st := mkStrIt (si_bytes i) v.
+
+(* StrippedBytes<'s> { bytes, state, utf8parser } and StripBytesIter<'s> (the same behind &mut) *)
+Record bytes_iter_st : Set := mkBytesIt { bi_bytes : list N; bi_state : state; bi_utf8 : u8parser }.
+Definition set_bi_bytes (i : bytes_iter_st) (v : list N) : bytes_iter_st := mkBytesIt v (bi_state i) (bi_utf8 i).
+Definition set_bi_state (i : bytes_iter_st) (v : state) : bytes_iter_st := mkBytesIt (bi_bytes i) v (bi_utf8 i).
+Definition set_bi_utf8 (i : bytes_iter_st) (v : u8parser) : bytes_iter_st := mkBytesIt (bi_bytes i) (bi_state i) v.
